@@ -154,6 +154,82 @@ func perturbNil(rv reflect.Value, r *core.Rand, depth int) int {
 	return n
 }
 
+// retypeContainer returns the tree with the elements (or keys, or values) of
+// one randomly chosen container replaced by as many well-formed elements of
+// another wire type.
+func retypeContainer(w rc.W, r *core.Rand) (rc.W, bool) {
+	var sites int
+	var count func(w rc.W)
+	count = func(w rc.W) {
+		switch w.T {
+		case rc.TList, rc.TSet, rc.TMap:
+			sites++
+			for _, it := range w.Items {
+				count(it)
+			}
+		case rc.TStruct:
+			for _, f := range w.Fields {
+				count(f.V)
+			}
+		}
+	}
+	count(w)
+	if sites == 0 {
+		return w, false
+	}
+	target, seen := r.Intn(sites), 0
+	o := rc.GenOpts{MaxDepth: 1, MaxLen: 2, MaxBin: 6, NaN: true, Budget: 20}
+	other := func(t byte) byte {
+		for {
+			if n := rc.AllTypes[r.Intn(len(rc.AllTypes))]; n != t {
+				return n
+			}
+		}
+	}
+	var walk func(w rc.W) rc.W
+	walk = func(w rc.W) rc.W {
+		switch w.T {
+		case rc.TList, rc.TSet, rc.TMap:
+			mine := seen == target
+			seen++
+			out := w
+			out.Items = make([]rc.W, len(w.Items))
+			for i, it := range w.Items {
+				out.Items[i] = walk(it)
+			}
+			if mine {
+				if w.T == rc.TMap {
+					if r.Bool() {
+						out.KT = other(w.KT)
+						for i := 0; i+1 < len(out.Items); i += 2 {
+							out.Items[i] = rc.Gen(r, out.KT, o)
+						}
+					} else {
+						out.VT = other(w.VT)
+						for i := 1; i < len(out.Items); i += 2 {
+							out.Items[i] = rc.Gen(r, out.VT, o)
+						}
+					}
+				} else {
+					out.VT = other(w.VT)
+					for i := range out.Items {
+						out.Items[i] = rc.Gen(r, out.VT, o)
+					}
+				}
+			}
+			return out
+		case rc.TStruct:
+			out := rc.W{T: rc.TStruct}
+			for _, f := range w.Fields {
+				out.Fields = append(out.Fields, rc.Field{ID: f.ID, V: walk(f.V)})
+			}
+			return out
+		}
+		return w
+	}
+	return walk(w), true
+}
+
 // c04: the value-based and the streaming path of generated code agree.
 func c04(c *core.Child, reg *Registry) {
 	if len(reg.Types) == 0 {
@@ -166,10 +242,19 @@ func c04(c *core.Child, reg *Registry) {
 		tree := idlm.Lower(v, e.Type, idlm.LowerOpts{R: r.Fork(), Shuffle: true})
 		var b []byte
 		kind := ""
-		switch r.Intn(6) {
+		switch r.Intn(7) {
 		case 0:
 			kind = "valid"
 			b = rc.Encode(tree)
+		case 6:
+			// a well-formed encoding in which one container carries elements of
+			// another type than declared (what a reader of another schema version sees)
+			kind = "retyped-elements"
+			t2, ok := retypeContainer(tree, r)
+			if !ok {
+				kind = "valid"
+			}
+			b = rc.Encode(t2)
 		case 1:
 			kind = "foreign-fields"
 			t2, _ := injectForeign(tree, e.Type, r, 3)
